@@ -115,6 +115,8 @@ Inductive op :=
 | EqMap (ne : bool) (m : pairs) | EqJunk (ne : bool)
 (* inherited from dict: d | mapping and mapping | d give a plain dict of visible values *)
 | OrMap (m : pairs) | ROrMap (m : pairs)
+(* collections.abc views over the mapping, dict(d), bool(d) *)
+| ViewKeys | ViewValues | ViewItems | DictOf | Truth
 (* malformed arguments: the items before the malformed one take effect, then the exception; the
    object stays consistent.  [BadKey n]: method number n called with an unhashable key *)
 | UpdateBad (l : pairs) (b : badkind) | UpdateExtendBad (l : pairs) (b : badkind)
@@ -247,6 +249,11 @@ Section Step.
     | EqJunk ne => (self, Ok (OBool (xorb_ne ne false)))
     | OrMap m => (self, Ok (OPairs (dict_merge (items1 self) m)))
     | ROrMap m => (self, Ok (OPairs (dict_merge m (items1 self))))
+    | ViewKeys => (self, Ok (OList (keys1 self)))
+    | ViewValues => (self, Ok (OList (map snd (items1 self))))
+    | ViewItems => (self, Ok (OPairs (items1 self)))
+    | DictOf => (self, Ok (OPairs (items1 self)))
+    | Truth => (self, Ok (OBool (match self with [] => false | _ => true end)))
     | UpdateBad l b => (replace_with self l, Ok (ORaised (bad_exn b)))
     | UpdateExtendBad l b => (self ++ l, Ok (ORaised (bad_exn b)))
     | AddListBad _ => (self, Ok (ORaised TypeError))
